@@ -644,8 +644,8 @@ def initV0 (t : IRTensor) (dt : Int) : IRValue :=
 def fillFrom (v0 v : IRValue) : IRValue :=
   { v with type := v.type <|> v0.type, shape := v.shape <|> v0.shape }
 
-def newInitValue (vis : List ValueInfoP) (q : List AnnotP) (t : IRTensor) : Except Err IRValue := do
-  let dt ← t.dtype
+def newInitValue (vis : List ValueInfoP) (q : List AnnotP) (t : IRTensor) (dt : Int) :
+    Except Err IRValue := do
   let v1 ← match findVI vis t.name with
     | some vi => do
       let v ← applyInfo (initV0 t dt) vi
@@ -659,13 +659,16 @@ def desInitializers (vis : List ValueInfoP) (q : List AnnotP) :
   | [], tbl => .ok (tbl, [])
   | t :: ts, tbl =>
     if t.name = "" then desInitializers vis q ts tbl
-    else match lookupLast (tableNames tbl) t.name with
+    else do
+      -- element type (and shape) of every named initializer are decoded up front (serde.py:813-816)
+      let dt ← t.dtype
+      match lookupLast (tableNames tbl) t.name with
       | some i => do
         let v := tbl.getD i (IRValue.blank "")
         let (tbl', is) ← desInitializers vis q ts (listSet tbl i { v with const := some t })
         .ok (tbl', i :: is)
       | none => do
-        let v ← newInitValue vis q t
+        let v ← newInitValue vis q t dt
         let (tbl', is) ← desInitializers vis q ts (tbl ++ [v])
         .ok (tbl', tbl.length :: is)
 
